@@ -109,9 +109,9 @@ CLAIMED.update({
 
 CLAIMED.update({
     "C05": {
-        "text": "Coq theorems (closed under the global context) over the model of SourceFileAnalyzer::analyze, for EVERY file text: the analysis never panics - the model keeps all four panic sites of the Rust (tokens_for_line(..).unwrap() under every cursor operation, err.location.unwrap(), the explicit panic! for an unmappable diagnostic, the unwrap() on symbol-warning locations) and none is reachable (C05_never_panics; safety invariant of the analyzer fork of the evaluators in Proofs/AnalyzerSafety.v: cursor on a stored line at most one past its last token, located errors and logged accesses at such locations, unlocated errors never DATA TYPE MISMATCH, pass 1 maps every such location); EVERY diagnostic it reports - pass-1 warnings and tokenizer errors, errors of the walk, symbol warnings - maps to a source position (C05_every_diagnostic_maps) and, for lines that are valid UTF-8, that position is on an existing file line, inside it, on character boundaries (C05_diagnostics_well_formed, C05_diag; an illegal multi-byte character is covered whole, C05_error_range_end); one token list and one range record per file line (C05_shape); token class ranges ordered and non-overlapping (C05_tokens); every BASIC-line binding names an existing file line (C05_bindings). Not proved: that the model's fuel suffices (termination of the Rust loops); decided on every run: the model's result, messages, mapped ranges and token classes must equal the implementation's on every generated file, and the implementation runs under catch_unwind with the well-formedness oracle.",
+        "text": "Coq theorems (closed under the global context) over the model of SourceFileAnalyzer::analyze, for EVERY file text: the analysis never panics - the model keeps all four panic sites of the Rust (tokens_for_line(..).unwrap() under every cursor operation, err.location.unwrap(), the explicit panic! for an unmappable diagnostic, the unwrap() on symbol-warning locations) and none is reachable (C05_never_panics; safety invariant of the analyzer fork of the evaluators in Proofs/AnalyzerSafety.v: cursor on a stored line at most one past its last token, located errors and logged accesses at such locations, unlocated errors never DATA TYPE MISMATCH, pass 1 maps every such location); EVERY diagnostic it reports - pass-1 warnings and tokenizer errors, errors of the walk, symbol warnings - maps to a source position (C05_every_diagnostic_maps) and, for lines that are valid UTF-8, that position is on an existing file line, inside it, on character boundaries (C05_diagnostics_well_formed, C05_diag; an illegal multi-byte character is covered whole, C05_error_range_end); one token list and one range record per file line (C05_shape); token class ranges ordered and non-overlapping (C05_tokens); every BASIC-line binding names an existing file line (C05_bindings). And the analysis TERMINATES: the Rust loops and recursion are modelled with fuel, and with fuel above a bound that depends only on the longest stored line and the nesting cap the result is never OutOfFuel - so for every text the analysis returns Ok (C05_terminates, C05_total; Proofs/AnalyzerTermination.v: the cursor never moves backwards, a successful expression consumes a token, every continuing loop iteration consumes a token, recursion costs one unit of fuel per nesting level). Decided on every run in addition: the model's result, messages, mapped ranges and token classes must equal the implementation's on every generated file, and the implementation runs under catch_unwind with the well-formedness oracle.",
         "design_ref": "DESIGN.md 6 C05",
-        "note": NOTE + "PARTIAL only in termination: an_result <> OutOfFuel (the walk's loops terminate within the fuel) is validated by correspondence, not proved.",
+        "note": NOTE,
         "technique": "Coq proof: inductive invariant over the per-line pass of the analyzer + tokenizer range theorems; differential correspondence of complete analyses + well-formedness oracle under catch_unwind",
     },
 })
